@@ -56,6 +56,12 @@ def gen_case(rng, cfg):
             ops.append(["setformula", str(c["id"]), sexp(g.body(c["id"], c["nparams"], [x["nparams"] for x in cells]))])
         elif k == "setcached":
             ops.append(["setcached", str(c["id"]), str(rng.randrange(2))])
+        elif k == "admin":
+            # administrative calls, in bursts (a stack-trace session is two of them)
+            for _ in range(rng.choice([1, 1, 2, 3])):
+                ops.append(["admin", rng.choice(execworld.ADMIN + ["start", "stop", "tracestack"])])
+        elif k == "maxdepth":
+            ops.append(["maxdepth", str(rng.choice(cfg.get("limits", [3, 4, 5, 6, 8, 10, 14, 100000])))])
     return {"cells": cells, "refs": refs, "n_rn": g.n_rn, "maxdepth": maxdepth, "ops": ops}
 
 
